@@ -61,10 +61,11 @@ structure StepIn where
   r : Rat
   α : Rat
   β : Rat
+  γ : Rat := 0       -- the discount in force at that step (one-step learners: `setDiscount` between steps)
 
 def stepIn : P StepIn := do
-  let s ← P.nat; let a ← P.nat; let s1 ← P.nat; let a1 ← P.nat; let r ← P.q; let α ← P.q; let β ← P.q
-  pure ⟨s, a, s1, a1, r, α, β⟩
+  let s ← P.nat; let a ← P.nat; let s1 ← P.nat; let a1 ← P.nat; let r ← P.q; let α ← P.q; let β ← P.q; let γ ← P.q
+  pure ⟨s, a, s1, a1, r, α, β, γ⟩
 
 def stepTD (L : String) (γ : Rat) (A : Nat) (π : QF) (q : QF) (e : StepIn) : QF :=
   match L with
@@ -116,9 +117,8 @@ def td : P String := do
   -- the policy as a function of the table it reads (materialised per use: closures must not pile up)
   let πOf : Rows → QF := fun rows => if pk == 0 then πm else ofRows (toRows S A (polOf pk ε2 A πm (ofRows rows)))
   if pk != 0 && !(decide (0 ≤ ε2) && decide (ε2 ≤ 1)) then P.fail
-  let lo := loC rmin γ
-  let hi := hiC rmax γ
-  let slack := tolRun * (1 + absQ lo + absQ hi)
+  let mut γmax := γ
+  let mut discChanged := false
   let isDQ := L == "dq"
   -- hypotheses of the clauses, checked by the driver itself
   let zeroStart := init.all (fun r => r.all (· == 0)) && initC.all (fun r => r.all (· == 0))
@@ -144,22 +144,29 @@ def td : P String := do
     let qp := ofRows prev
     -- (L2b) one model step from the implementation's own previous state
     let (m1, m1C, coin, a1) :=
-      if isDQ then dqPick γ e.α S A prev prevC e out outC
-      else (toRows S A (stepTD L γ A (πOf prev) qp e), [], true, 0)
+      if isDQ then dqPick e.γ e.α S A prev prevC e out outC
+      else (toRows S A (stepTD L e.γ A (πOf prev) qp e), [], true, 0)
     let bad := !(closeRows tolStep m1 out) || (isDQ && !(closeRows tolStep m1C outC))
     v := v.diffIf bad s!"{comp} step {k} from-impl-state model={showRows m1} impl={showRows out}"
     if eqRows m1 out && (!isDQ || eqRows m1C outC) then exact := exact + 1
     -- pure model trajectory
     let (mm, mmC) :=
       if isDQ then
-        let d := dqStepAt γ e.α ⟨ofRows mdl, ofRows mdlC⟩ coin a1 e.s e.a e.s1 e.r
+        let d := dqStepAt e.γ e.α ⟨ofRows mdl, ofRows mdlC⟩ coin a1 e.s e.a e.s1 e.r
         (toRows S A d.qa, toRows S A d.qc)
-      else (toRows S A (stepTD L γ A (πOf mdl) (ofRows mdl) e), [])
+      else (toRows S A (stepTD L e.γ A (πOf mdl) (ofRows mdl) e), [])
     v := v.diffIf (!(closeRows tolRun mm out) || (isDQ && !(closeRows tolRun mmC outC)))
       s!"{comp} step {k} trajectory model={showRows mm} impl={showRows out}"
     -- (L3) clause 1: bounds on the implementation's own tables
     let okEv := decide (rmin ≤ e.r) && decide (e.r ≤ rmax) && decide (0 < e.α) && decide (e.α ≤ 1) && decide (0 ≤ e.β) && decide (e.β ≤ 1)
+      && decide (0 ≤ e.γ) && decide (e.γ < 1)
     if !okEv then hypOK := false
+    -- `setDiscount` between steps: the interval is the hull interval of the largest discount used so far (theorems *_bounded_discounts)
+    if γmax < e.γ then γmax := e.γ
+    let lo := loC rmin γmax
+    let hi := hiC rmax γmax
+    let slack := tolRun * (1 + absQ lo + absQ hi)
+    if e.γ != γ then discChanged := true
     if boundsClause && hypOK then
       match firstOutside lo hi slack out with
       | some (s, a, x) => v := v.failIf true s!"{comp} td_out_of_bounds step {k} entry ({s},{a}) = {ratStr x} outside [{ratStr lo},{ratStr hi}]"
@@ -178,7 +185,7 @@ def td : P String := do
         | some s1' => s1' == e.s1
         | none => true
       if (lookupNext nxt (e.s, e.a)).isNone then nxt := ((e.s, e.a), e.s1) :: nxt
-      let hyp := consistent && e.r == q0 e.s e.a - γ * mx
+      let hyp := consistent && e.γ == γ && e.r == q0 e.s e.a - γ * mx
         && (L != "sarsa" || q0 e.s1 e.a1 == mx)
         && (!(L == "esarsa" || L == "esarsap") || expectedQ A (πOf starRows) q0 e.s1 == mx)
         && (!isDQ || initC == starRows.map (fun r => r.map (· * 2)))
@@ -197,6 +204,7 @@ def td : P String := do
   if (mode == 1 || mode == 3) && hypS && starSteps > 0 then v := { v with tag := v.tag ++ " qstar" }
   if mode == 0 && !(boundsClause && hypOK) then v := { v with tag := v.tag ++ " bounds-hyp-not-met" }
   if exact == n then v := { v with tag := v.tag ++ " exact" }
+  if discChanged then v := { v with tag := v.tag ++ " setDiscount" }
   if n == 0 then v := { v with tag := v.tag ++ " trivial" }
   return v.render
 
@@ -253,6 +261,14 @@ def trCore (withObj : Bool) : P String := do
   if A == 0 || S == 0 then P.fail
   let comp := component L
   let πt := ofRows πtR; let πb := ofRows πbR
+  -- the parameters may be changed between steps through the setters (events 4..8)
+  let mut γ := γ
+  let mut α := α
+  let mut lam := lam
+  let mut tol := tol
+  let mut ε := ε
+  let mut paramChanged := false
+  let mut tolChanged := false
   let isIS := kindOf L == .is && L != "sarsal"
   let lamFamily := !isIS
   let mut prevT : List Tr := []
@@ -282,13 +298,22 @@ def trCore (withObj : Bool) : P String := do
     let ev ← P.nat
     if ev != 0 then
       -- trace bookkeeping through the public interface: the table must not move, the list is [] / unchanged / the kept one
+      let val ← if ev ≥ 4 then P.q else pure 0
       let outT ← traces
       let out ← tab S A
+      if ev == 4 then γ := val
+      if ev == 5 then lam := val
+      if ev == 6 then α := val
+      if ev == 7 then
+        tol := val; tolChanged := true
+      if ev == 8 then ε := val
+      if ev ≥ 4 then
+        paramChanged := true; hypS := false
       if ill then continue
-      let expT := if ev == 1 then [] else if ev == 2 then prevT else savedT
+      let expT := if ev == 1 then [] else if ev == 3 then savedT else prevT
       v := v.diffIf (!(expT == outT)) s!"{comp} event {k} kind={ev} traces expected={showTraces expT} impl={showTraces outT}"
       v := v.diffIf (!(eqRows out prev)) s!"{comp} event {k} kind={ev} moved the table impl={showRows out}"
-      if lamFamily && decide (tol ≤ 1) then
+      if lamFamily && decide (tol ≤ 1) && !tolChanged then
         v := v.failIf (!(tracesInRange tol outT)) s!"{comp} trace_out_of_range event {k} kind={ev} traces={showTraces outT} tol={ratStr tol}"
       v := v.failIf (!(tracesNodup outT)) s!"{comp} trace_duplicate event {k} kind={ev} traces={showTraces outT}"
       if ev == 2 then
@@ -301,7 +326,7 @@ def trCore (withObj : Bool) : P String := do
     let s ← P.nat; let a ← P.nat; let s1 ← P.nat; let a1 ← P.nat; let r ← P.q
     if r < rlo then rlo := r
     if rhi < r then rhi := r
-    let e : StepIn := ⟨s, a, s1, a1, r, α, 0⟩
+    let e : StepIn := ⟨s, a, s1, a1, r, α, 0, γ⟩
     let outT ← traces
     let out ← tab S A
     if !(inRange S A e) then P.fail
@@ -336,7 +361,7 @@ def trCore (withObj : Bool) : P String := do
     if lamFamily && !(decide (tol ≤ 1)) then
       v := v.failIf (!(tracesInRange tol outT)) s!"{if L == "sarsal" then "SARSAL" else "OffPolicyBase"} trace_below_cutoff_above_one step {k} learner={comp} traces={showTraces outT} tol={ratStr tol}"
     v := v.failIf (!(tracesNodup outT)) s!"{comp} trace_duplicate step {k} traces={showTraces outT}"
-    if bndClause then
+    if bndClause && !paramChanged then
       let lo := loC rlo γ
       let hi := hiC rhi γ
       let slack := tolRun * (1 + absQ lo + absQ hi)
@@ -369,7 +394,8 @@ def trCore (withObj : Bool) : P String := do
   if ill then return "skip ill_conditioned"
   if n == 0 then v := { v with tag := v.tag ++ " trivial" }
   if starSteps > 0 && starSteps == n then v := { v with tag := v.tag ++ " qstar" }
-  if bndClause then v := { v with tag := v.tag ++ " bounds" }
+  if bndClause && !paramChanged then v := { v with tag := v.tag ++ " bounds" }
+  if paramChanged then v := { v with tag := v.tag ++ " setters" }
   if nBook > 0 then v := { v with tag := v.tag ++ " bookkeeping" }
   v := { v with tag := v.tag ++ s!" len{if maxLen > 3 then 4 else maxLen}" }
   return v.render
